@@ -47,10 +47,19 @@ struct Run {
 	hi: u32,
 	acc: bool,
 	samples: Vec<Value>,
+	fixed: Vec<Value>,
 }
 
 fn runs_json(runs: &[Run]) -> Value {
-	Value::Array(runs.iter().map(|r| json!({"lo": r.lo, "hi": r.hi, "acc": r.acc, "samples": r.samples})).collect())
+	Value::Array(
+		runs.iter()
+			.map(|r| {
+				let mut s = r.samples.clone();
+				s.extend(r.fixed.iter().cloned());
+				json!({"lo": r.lo, "hi": r.hi, "acc": r.acc, "samples": s})
+			})
+			.collect(),
+	)
 }
 
 fn scan<F: FnMut(u32) -> Option<Result<Option<Vec<u8>>, String>>>(lo: u32, hi: u32, rng: &mut Rng, nsamples: u64, mut f: F) -> Result<Vec<Run>, String> {
@@ -66,10 +75,17 @@ fn scan<F: FnMut(u32) -> Option<Result<Option<Vec<u8>>, String>>>(lo: u32, hi: u
 			None => false,
 		};
 		if !extend {
-			runs.push(Run { lo: v, hi: v, acc, samples: Vec::new() });
+			runs.push(Run { lo: v, hi: v, acc, samples: Vec::new(), fixed: Vec::new() });
 		}
 		let last = runs.last_mut().unwrap();
 		last.hi = v;
+		if let Some(bytes) = &r {
+			const INTERESTING: [u32; 30] = [0x09, 0x0a, 0x0d, 0x20, 0x2e, 0x3f, 0x7f, 0x80, 0xa0, 0xff, 0x100, 0x7ff, 0x800, 0x2028, 0x2029, 0xd7ff, 0xe000, 0xfeff, 0xfffd, 0xfffe,
+				0xffff, 0x10000, 0x1fffe, 0x1ffff, 0x20000, 0xe0001, 0xfeff0, 0x10fffe, 0x10ffff, 0xfffb];
+			if INTERESTING.contains(&v) {
+				last.fixed.push(json!({"c": v, "b": bytes_json(bytes)}));
+			}
+		}
 		if let Some(bytes) = r {
 			// keep: first element of the run, then a reservoir-ish random selection, always the latest
 			let n = last.samples.len() as u64;
@@ -93,8 +109,16 @@ pub fn cps_of(s: &str) -> Value {
 	Value::Array(s.chars().map(|c| json!(c as u32)).collect())
 }
 
+fn place_in(ty: &str, attr: &str, text: &str, key: &LiveKey, case: &str, out: &mut Out) {
+	place_at(ty, "dn", attr, text, key, case, out)
+}
+
 fn place(ty: &str, whr: &str, text: &str, key: &LiveKey, case: &str, out: &mut Out) {
-	let args = json!({"type": ty, "where": whr, "cps": cps_of(text)});
+	place_at(ty, whr, "2.5.4.3", text, key, case, out)
+}
+
+fn place_at(ty: &str, whr: &str, attr: &str, text: &str, key: &LiveKey, case: &str, out: &mut Out) {
+	let args = json!({"type": ty, "where": whr, "attr": attr, "cps": cps_of(text)});
 	let mut p = CertificateParams::default();
 	p.serial_number = Some(SerialNumber::from_slice(&[3]));
 	if !cfg!(feature = "crypto") {
@@ -105,7 +129,7 @@ fn place(ty: &str, whr: &str, text: &str, key: &LiveKey, case: &str, out: &mut O
 			"dn" => {
 				let v = crate::desc::dn_value(ty, text)?;
 				p.distinguished_name = DistinguishedName::new();
-				p.distinguished_name.push(DnType::CommonName, v);
+				p.distinguished_name.push(crate::desc::dn_type(attr), v);
 			},
 			"san-rfc822" => p.subject_alt_names = vec![SanType::Rfc822Name(text.try_into()?)],
 			"san-dns" => p.subject_alt_names = vec![SanType::DnsName(text.try_into()?)],
@@ -180,6 +204,43 @@ pub fn run(out_path: &str, tier: &str) {
 				},
 				Err(p) => out.event("StringRuns", &case, json!({"dom": "scalar", "type": ty, "ctor": ctor}), "Panic", &p, json!({"runs": []})),
 			}
+		}
+	}
+	// 1b. complete transfer encoding of whole blocks of accepted code points (BMP: all; Universal: plane 0 in quick, all planes in thorough)
+	for (ty, top) in [("bmp", 0xffffu32), ("universal", if tier == "quick" { 0xffff } else { 0x10ffff })] {
+		let mut lo = 0u32;
+		while lo <= top {
+			let hi = (lo + 0xfff).min(top);
+			let mut stored: Vec<u8> = Vec::new();
+			let mut cps: Vec<u32> = Vec::new();
+			for v in lo..=hi {
+				if let Some(c) = char::from_u32(v) {
+					if let Ok(Some(b)) = construct(ty, "try_from_str", &c.to_string()) {
+						stored.extend(b);
+						cps.push(v);
+					}
+				}
+			}
+			// accepted code points of a block are reported as maximal sub-ranges
+			let mut ranges: Vec<Value> = Vec::new();
+			let mut i = 0;
+			while i < cps.len() {
+				let mut j = i;
+				while j + 1 < cps.len() && cps[j + 1] == cps[j] + 1 {
+					j += 1;
+				}
+				ranges.push(json!({"lo": cps[i], "hi": cps[j]}));
+				i = j + 1;
+			}
+			out.event("StringBlock", &format!("str-block/{}/{:x}", ty, lo), json!({"type": ty, "lo": lo, "hi": hi}), "Ok", "", json!({"ranges": ranges, "stored": bytes_json(&stored)}));
+			lo = hi + 1;
+		}
+	}
+	// 1c. every standard attribute type x every string kind: the tag must follow the value's kind, not the attribute
+	for ty in ["2.5.4.6", "2.5.4.7", "2.5.4.8", "2.5.4.10", "2.5.4.11", "2.5.4.3", "1.2.3.4.5", "2.999.7"] {
+		for kind in ["utf8", "printable", "ia5", "teletex", "bmp", "universal"] {
+			place_in(kind, ty, "DE", &key, &format!("str-place-type/{}/{}", ty, kind), &mut out);
+			place_in(kind, ty, "a+b", &key, &format!("str-place-type/{}/{}", ty, kind), &mut out);
 		}
 	}
 	// 2. byte-level constructors: every 16-bit unit, every 32-bit value below 0x120000
